@@ -34,6 +34,11 @@ POOL_SEEDS = (
     "kio.schema.metadata.v1.response", "kio.schema.metadata.v5.response", "kio.schema.metadata.v9.response", "kio.schema.metadata.v4.request",
     "kio.schema.produce.v3.response", "kio.schema.produce.v8.response", "kio.schema.produce.v3.request", "kio.schema.create_topics.v2.response", "kio.schema.create_topics.v4.request",
     "kio.schema.api_versions.v4.response", "kio.schema.request_header.v0.header", "kio.schema.list_offsets.v1.response", "kio.schema.offset_fetch.v1.response",
+    # field shapes the list above lacks: float64, int64 durations, non-nullable timestamps, legacy bytes, []int64 / []int8, legacy []string, tagged []uuid
+    "kio.schema.alter_client_quotas.v1.request", "kio.schema.alter_client_quotas.v0.request", "kio.schema.describe_client_quotas.v1.response",
+    "kio.schema.create_delegation_token.v2.response", "kio.schema.create_delegation_token.v1.request", "kio.schema.offset_commit.v2.request",
+    "kio.schema.sasl_authenticate.v0.request", "kio.schema.sasl_authenticate.v1.response", "kio.schema.broker_heartbeat.v1.request",
+    "kio.schema.describe_transactions.v0.response", "kio.schema.write_txn_markers.v0.request", "kio.schema.describe_log_dirs.v1.request", "kio.schema.delete_topics.v3.request",
 )
 
 
@@ -136,7 +141,28 @@ def do_fail(case: Case, rng) -> str | None:  # noqa: ANN001
     from kio.serial import entity_reader, entity_writer
     from kio.serial.errors import BufferUnderflow
 
-    kind = rng.randrange(4)
+    kind = rng.randrange(5)
+    if kind == 4 and case.ref:
+        # a complete but malformed message: a string cut inside a multi-byte character (what an incremental decoder would keep for
+        # "the next chunk"), or structure-aware corruption of the valid encoding.  Whatever it raises is not this check's business.
+        from .faults import _mutate
+
+        try:
+            raw, layout = refcodec.encode(case.spec, case.tree)
+        except Exception:  # noqa: BLE001
+            return None
+        data = raw
+        strings = [e for e in layout if e[2] == "payload" and e[1] >= 1]
+        if strings and rng.random() < 0.5:
+            off, ln, _, _ = rng.choice(strings)
+            data = raw[:off + ln - 1] + rng.choice((b"\xc3", b"\xe2", b"\xf0")) + raw[off + ln:]
+        else:
+            data, _ = _mutate(rng, raw, layout, raw)
+        try:
+            entity_reader(case.cls)(io.BytesIO(data))
+        except Exception:  # noqa: BLE001
+            pass
+        return None
     if kind == 3:
         # the encode fails because of the *value*: every tagged field is non-default and a later one cannot be encoded (an integer out of
         # range), so the failure happens after earlier tagged fields were staged and before anything reached the sink; else: any bad int
@@ -646,6 +672,70 @@ def alias_twins(res: Result, shard_i: int, shard_n: int) -> None:
                     break
 
 
+CONTENDED = ("kio.schema.alter_client_quotas.v1.request:OpData", "kio.schema.describe_client_quotas.v1.response:ValueData",
+             "kio.schema.create_delegation_token.v2.response:CreateDelegationTokenResponse", "kio.schema.offset_commit.v2.request:OffsetCommitRequestPartition",
+             "kio.schema.sasl_authenticate.v0.request:SaslAuthenticateRequest", "kio.schema.broker_heartbeat.v1.request:BrokerHeartbeatRequest",
+             "kio.schema.write_txn_markers.v0.request:WritableTxnMarkerTopic", "kio.schema.describe_transactions.v0.response:TransactionState",
+             "kio.schema.produce.v9.response:PartitionProduceResponse", "kio.schema.heartbeat.v4.response:HeartbeatResponse")
+
+
+def contention_schedules(res: Result, shard_i: int, shard_n: int, sigs: set) -> None:
+    """Two threads encode (then decode) *different values of the same small class* - one class per primitive kind (float64, durations of
+    both widths, timestamps, bytes, uuid arrays, int arrays, error codes) - and thread 0 is preempted exactly once, at every one of its
+    yield points in turn: whatever a primitive keeps outside the call (a scratch buffer, a packer, a decoder) is then used by the other
+    thread in between.  Exhaustive in the single preemption point."""
+    from kio.serial import entity_reader, entity_writer
+
+    sch = Scheduler()
+    sch.start()
+    try:
+        for k, path in enumerate(CONTENDED):
+            if k % shard_n != shard_i:
+                continue
+            try:
+                cls = walk.resolve(path)
+            except Exception:  # noqa: BLE001
+                res.count("contended_class_missing")
+                continue
+            rng = common.rng_for("C19", "contention", path)
+            a = Case(cls, rng, "A")
+            b = Case(cls, rng, "B")
+            for _ in range(20):
+                if b.ref != a.ref:
+                    break
+                b = Case(cls, rng, "B")
+            entity_writer(cls), entity_reader(cls)
+            errors: list = []
+
+            def body(case: Case, who: int) -> None:
+                for op in (do_encode, do_decode, do_encode):
+                    try:
+                        bad = op(case)
+                    except Exception as exc:  # noqa: BLE001
+                        bad = f"{op.__name__} raised {exc!r}"
+                    if bad:
+                        errors.append((who, bad))
+
+            s0, done = sch.run([lambda: body(a, 0), lambda: body(b, 1)], seed=0, d=0, horizon=1)
+            horizon = max(1, s0.points)
+            res.count("contention_classes")
+            for point in range(1, horizon + 1):
+                errors.clear()
+                s1, done = sch.run([lambda: body(a, 0), lambda: body(b, 1)], seed=point, d=1, horizon=horizon, at={point})
+                res.count("contention_schedules")
+                sigs.add("c:" + s1.signature())
+                if not done:
+                    res.inconclusive_because(f"contention schedule for {path} did not finish")
+                    break
+                if errors:
+                    who, bad = errors[0]
+                    res.violation(f"contention:{cls.__name__}", f"two threads using the readers/writers of {path} with different values, thread 0 preempted once at yield point {point} of {horizon}"
+                                  f" ({s1.trace[:1]}): thread {who}: {bad}", {"class": path, "point": point, "horizon": horizon, "trace": s1.trace, "a": a.tree, "b": b.tree})
+                    break
+    finally:
+        sch.stop()
+
+
 def stress(res: Result, seconds: float, nthreads: int = 16) -> None:
     """Uncontrolled run: real GIL scheduling with a tiny switch interval (below line granularity)."""
     import time
@@ -739,6 +829,7 @@ def c19_worker(res: Result, i: int, n: int) -> None:
     fresh_schedules(res, i, n, 160 if quick else 4800, sigs)
     synthetic_parents(res, i, n, 96 if quick else 600)
     alias_twins(res, i, n)
+    contention_schedules(res, i, n, sigs)
     res.coverage["distinct_schedule_signatures"] = len(sigs)
     res.coverage["preemption_lines"] = sorted(lines)
     if i == 0:
